@@ -442,10 +442,17 @@ def _known_const(stmts, local, depth=0):
     return None
 
 
+def _discr_of(adt, variant):
+    tab = STD_DISCR.get(adt) or USER_DISCR.get(adt) or {}
+    return tab.get(variant)
+
+
 def _eval_stmts(stmts, env, F=None):
-    """constant propagation over a straight-line statement list: env maps a local to an int it is known to hold; locals assigned
-    anything else become unknown. Only whole-local assignments of constants, moves and `!x` count (comparisons are deliberately not
-    evaluated: `state = K; if state == K` keeps its edge fact, which rules use to know the value of `state`)."""
+    """constant propagation over a straight-line statement list. env maps a local to what it is known to hold: an int, or
+    ("agg", adt, variant, [payload values or None]) for an enum value built a moment ago. Locals assigned anything else become
+    unknown. Constants, moves, `!x`, enum construction, reading the payload of a known variant and reading a known discriminant
+    count (comparisons are deliberately not evaluated: `state = K; if state == K` keeps its edge fact, which rules use to know the
+    value of `state`)."""
     env = dict(env)
     for st in stmts:
         if st["k"] != "assign":
@@ -460,18 +467,32 @@ def _eval_stmts(stmts, env, F=None):
         def opv(o):
             if o.get("k") == "const" and isinstance(o.get("value"), int) and not isinstance(o.get("value"), bool):
                 return o["value"]
-            if o.get("k") in ("move", "copy") and not o["p"].get("p"):
-                return env.get(o["p"]["l"])
+            if o.get("k") in ("move", "copy"):
+                base = env.get(o["p"]["l"])
+                proj = o["p"].get("p") or []
+                if not proj:
+                    return base
+                # ((x as V).i) of a value known to be V(..)
+                if isinstance(base, tuple) and len(proj) == 2 and proj[0].get("k") == "downcast" and proj[1].get("k") == "field" and str(proj[0].get("v")) == str(base[2]):
+                    i = proj[1].get("i")
+                    if isinstance(i, int) and i < len(base[3]):
+                        return base[3][i]
             return None
         if rv["k"] == "use":
             val = opv(rv["a"])
         elif rv["k"] == "unop" and rv.get("op") == "Not":
             x = opv(rv["a"])
             ty = rv["a"].get("ty") or (rv["a"].get("p") or {}).get("ty")
-            if ty is None and F is not None and rv["a"].get("k") in ("move", "copy"):
+            if ty is None and F is not None and rv["a"].get("k") in ("move", "copy") and not rv["a"]["p"].get("p"):
                 ty = F["locals"][rv["a"]["p"]["l"]].get("ty")
             if x in (0, 1) and ty == "bool":
                 val = 1 - x
+        elif rv["k"] == "agg" and rv.get("ak") == "adt" and rv.get("variant") and (rv.get("adt") in STD_DISCR or rv.get("adt") in USER_DISCR):
+            val = ("agg", rv["adt"], rv["variant"], [opv(o) for o in rv.get("ops", [])])
+        elif rv["k"] == "discr" and not rv["p"].get("p"):
+            base = env.get(rv["p"]["l"])
+            if isinstance(base, tuple):
+                val = _discr_of(base[1], base[2])
         if val is None:
             env.pop(dl, None)
         else:
@@ -479,68 +500,99 @@ def _eval_stmts(stmts, env, F=None):
     return env
 
 
-def _simple_forward(B):
-    """a block that only computes on locals (constants, moves, !, ==) and goes on: its effect can be evaluated"""
-    if B.get("cleanup") or B["term"]["k"] != "goto":
-        return False
+def _eval_term(B, env):
+    """effect of a forwarding block's terminator: `Try::branch(x)` of a known Ok/Some/Err/None is Continue(payload) / Break(..)"""
+    t = B["term"]
+    if t["k"] == "call" and (t.get("callee") or "").endswith("Try::branch") and len(t.get("args", [])) == 1 and not t["dst"].get("p"):
+        a = t["args"][0]
+        env = dict(env)
+        base = env.get(a["p"]["l"]) if a.get("k") in ("move", "copy") and not a["p"].get("p") else None
+        if isinstance(base, tuple) and base[2] in ("Ok", "Some"):
+            env[t["dst"]["l"]] = ("agg", "core::ops::control_flow::ControlFlow", "Continue", list(base[3][:1]) or [None])
+        elif isinstance(base, tuple) and base[2] in ("Err", "None"):
+            env[t["dst"]["l"]] = ("agg", "core::ops::control_flow::ControlFlow", "Break", [None])
+        else:
+            env.pop(t["dst"]["l"], None)
+        return env
+    return env
+
+
+def _simple_stmts(B):
     for st in B["stmts"]:
         if st["k"] in ("storage_live", "storage_dead", "nop", "fake_read"):
             continue
-        if st["k"] != "assign" or st["dst"].get("p") or st["rv"]["k"] not in ("use", "unop"):
-            return False
-        ops = [st["rv"].get("a"), st["rv"].get("b")]
-        if any(o is not None and o.get("k") in ("move", "copy") and o["p"].get("p") for o in ops):
+        if st["k"] != "assign" or st["dst"].get("p") or st["rv"]["k"] not in ("use", "unop", "agg", "discr"):
             return False
     return True
 
 
+def _simple_forward(B):
+    """a block that only computes on locals and goes on (a goto, or a `Try::branch` call whose effect on a known value is known):
+    its effect can be evaluated"""
+    if B.get("cleanup") or not _simple_stmts(B):
+        return False
+    t = B["term"]
+    if t["k"] == "goto":
+        return True
+    return t["k"] == "call" and (t.get("callee") or "").endswith("Try::branch") and isinstance(t.get("t"), int) and len(t.get("args", [])) == 1
+
+
 def thread_consts(F):
     """Jump threading for flags: `let hit = matches!(..); if !hit { .. }` assigns a constant to a local on every way into a join,
-    possibly negates or compares it, and then branches on it. The branching block is cloned per predecessor chain on which the
-    branch value is a known constant and the clone jumps straight to the arm for that constant (path duplication: sound), so the
-    tests that decided the flag dominate the arm again."""
+    possibly negates it or carries it inside an Option/Result through a `?`, and then branches on it. The chain of blocks from the
+    assignment to the branch is cloned for each predecessor on which the branch value is a known constant and the clone jumps
+    straight to the arm for that constant (path duplication: sound), so the tests that decided the flag dominate the arm again."""
     changed = False
-    for _ in range(4):
-        preds = {}
-        for b in F["blocks"]:
-            t = b["term"]
-            if t["k"] == "goto" and isinstance(t.get("t"), int):
-                preds.setdefault(t["t"], []).append(b["id"])
+    for _ in range(32):
+        allp = _all_preds(F)
         did = False
         for J in list(F["blocks"]):
             t = J["term"]
-            if t["k"] != "switch" or J.get("cleanup") or t["discr"].get("k") not in ("move", "copy") or t["discr"]["p"].get("p"):
-                continue
-            if any(st["k"] == "assign" and (st["dst"].get("p") or st["rv"]["k"] not in ("use", "unop")) for st in J["stmts"]):
+            if t["k"] != "switch" or J.get("cleanup") or t["discr"].get("k") not in ("move", "copy") or t["discr"]["p"].get("p") or not _simple_stmts(J):
                 continue
             d = t["discr"]["p"]["l"]
             if F["locals"][d].get("ty") != "bool":
                 continue
-            # chains P -> (simple forwarding blocks)* -> J
-            work = [(pid, []) for pid in preds.get(J["id"], [])]
+            # chains P -> (forwarding blocks)* -> J, walked backwards from J
+            work = [(pid, []) for pid in allp.get(J["id"], [])]
             seen = set()
             while work:
                 pid, tail = work.pop()
-                if (pid, len(tail)) in seen or len(tail) > 3:
+                if (pid, tuple(tail)) in seen or len(tail) > 4:
                     continue
-                seen.add((pid, len(tail)))
+                seen.add((pid, tuple(tail)))
                 P = F["blocks"][pid]
-                if P["term"]["k"] != "goto":
+                nxt = tail[0] if tail else J["id"]
+                if P.get("cleanup") or not ((P["term"]["k"] == "goto" and P["term"].get("t") == nxt) or (_simple_forward(P) and P["term"].get("t") == nxt)):
                     continue
-                stmts_tail = [st for q in tail for st in F["blocks"][q]["stmts"]]
-                env = _eval_stmts(P["stmts"] + stmts_tail + J["stmts"], {}, F)
+                env = _eval_stmts(P["stmts"], {}, F)
+                env = _eval_term(P, env)
+                for q in tail:
+                    env = _eval_stmts(F["blocks"][q]["stmts"], env, F)
+                    env = _eval_term(F["blocks"][q], env)
+                env = _eval_stmts(J["stmts"], env, F)
                 v = env.get(d)
-                if v is not None:
+                if isinstance(v, int) and P["term"]["k"] == "goto":
                     hit = [tg for val, tg in t["targets"] if val == v]
                     tgt = hit[0] if hit else t["otherwise"]
-                    clone = {"id": len(F["blocks"]), "stmts": copy.deepcopy(stmts_tail) + copy.deepcopy(J["stmts"]), "term": {"k": "goto", "t": tgt, "sp": t.get("sp"), "threaded_from": J["id"]}}
-                    F["blocks"].append(clone)
+                    # clone the tail and J; P is redirected into the clones
+                    ids = [len(F["blocks"]) + i for i in range(len(tail) + 1)]
+                    for i, q in enumerate(tail):
+                        Q = F["blocks"][q]
+                        tq = copy.deepcopy(Q["term"])
+                        tq["t"] = ids[i + 1]
+                        tq["threaded_from"] = q
+                        F["blocks"].append({"id": ids[i], "stmts": copy.deepcopy(Q["stmts"]), "term": tq})
+                    F["blocks"].append({"id": ids[-1], "stmts": copy.deepcopy(J["stmts"]), "term": {"k": "goto", "t": tgt, "sp": t.get("sp"), "threaded_from": J["id"]}})
                     P["term"] = dict(P["term"])
-                    P["term"]["t"] = clone["id"]
+                    P["term"]["t"] = ids[0]
                     did = changed = True
-                elif _simple_forward(P):
-                    for q in preds.get(pid, []):
+                    break
+                if _simple_forward(P):
+                    for q in allp.get(pid, []):
                         work.append((q, [pid] + tail))
+            if did:
+                break
         if not did:
             break
     return changed
